@@ -1,4 +1,5 @@
 """Per-property configuration of the checks: families, builds, run counts, evidence rules."""
+import c07
 ALL = ['REL', 'SEC', 'DBG']
 
 COMPONENTS = {
@@ -61,5 +62,49 @@ PROPS = {
    'rule': 'non-trivial = at least one watched freed block was checked against the purge log after the activity rounds (or the delay=-1 no-purge rule ran); distinct = distinct event hash',
    'nontrivial': lambda r: True, 'distinct_by': 'event',
    'must_reach': ['segment_purge_by_time'],
+ },
+ 'C03': {
+   'families': [('c03_align', 1, ALL)],
+   'runs': {'quick': 2400, 'thorough': 150000},
+   'rule': 'each run executes 6-30 (size, alignment, offset) triples against warmed-up heap states, each followed by expand / realloc(_aligned(_at)) / free variants; non-trivial = at least 5 aligned allocations succeeded and one was resized; distinct = distinct API result hash',
+   'nontrivial': lambda r: r.get('allocs', 0) >= 5 and r.get('reallocs', 0) >= 1,
+ },
+ 'C04': {
+   'families': [('c04_dirty', 3, ALL), ('c04_grow', 2, ALL)],
+   'runs': {'quick': 2400, 'thorough': 120000},
+   'rule': 'non-trivial = at least one zero obligation was checked (zeroing allocation over previously dirtied memory, or a growth step of a zero-initialised block); distinct = distinct API result hash',
+   'nontrivial': lambda r: sw(r, 'zero_checked') > 0,
+   'must_reach': ['zero_checked', 'realloc_inplace', 'realloc_moved', 'segment_reclaimed', 'heap_destroy'],
+ },
+ 'C05': {
+   'families': [('c05_realloc', 1, ALL)],
+   'runs': {'quick': 2400, 'thorough': 150000},
+   'rule': 'non-trivial = at least 5 realloc-family calls, with both in-place and moving outcomes counted as probes; distinct = distinct API result hash',
+   'nontrivial': lambda r: r.get('reallocs', 0) >= 5,
+   'must_reach': ['realloc_inplace', 'realloc_moved', 'alloc_null', 'os_refused'],
+ },
+ 'C06': {
+   'families': [('c06_badreq', 3, ALL), ('c06_wellformed', 1, ALL)],
+   'runs': {'quick': 2000, 'thorough': 100000},
+   'rule': 'malformed requests (30 kinds: overflowing count*size, > PTRDIFF_MAX, alignment 0 / not a power of two / not a pointer multiple, page rounding overflow, through malloc/calloc/aligned/posix/realloc families) are issued in the middle of populated histories; the converse family issues well-formed requests up to 256 MiB / alignment 256 MiB with no OS refusal; non-trivial = run executed >= 10 operations; distinct = distinct API result hash',
+   'nontrivial': lambda r: r.get('ops', 0) >= 10,
+ },
+ 'C12': {
+   'families': [('c12_holes', 3, ALL), ('c12_remote', 1, ALL), ('c09_exit', 1, ALL)],
+   'runs': {'quick': 2400, 'thorough': 150000},
+   'rule': 'non-trivial = at least one heap walk was compared block-by-block with the shadow heap; distinct = distinct API result hash (and schedule signature for the multi-threaded families)',
+   'nontrivial': lambda r: sw(r, 'visit_checked') > 0,
+   'must_reach': ['visit_checked'],
+ },
+ 'C07': {
+   'families': [('c07_random', 1, ALL)],
+   'jobgen': c07.jobgen,
+   'level': 'fault_enumeration',
+   'runs': {'quick': 600, 'thorough': 60000},
+   'budget_s': {'quick': 150, 'thorough': 2400},
+   'rule': 'for every base workload (c07_base variants: small churn, page fill, medium+large, huge, aligned-huge, two threads with exit, arena too small, overcommit off, arena_eager_commit=0, eager_commit=0) the OS calls of a fault-free run are enumerated and EVERY call inside an operation is refused once (single) and from there on until heal_os (persistent): that inner loop is exhaustive; bases, option sets and the additional random multi-fault plans (c07_random) are sampled. non-trivial = at least one injected fault actually fired; distinct = distinct event hash',
+   'nontrivial': lambda r: r.get('faults_fired', 0) > 0, 'distinct_by': 'event',
+   'exhaustive_note': 'fault position k over all OS calls made inside operations of each base workload, single and persistent mode',
+   'must_reach': ['os_refused', 'alloc_null'],
  },
 }
